@@ -84,6 +84,22 @@ def _initial_image(m, ptr_bits):
     return {name: bytes(obj.data).hex() for name, obj in mach.globals.items()}
 
 
+def _flat_value(value):
+    """Initial contents of a Variable independent of how the data bytes are split into parts."""
+    if value is None:
+        return None
+    out = []
+    for part in value:
+        if isinstance(part, (bytes, bytearray)):
+            if out and isinstance(out[-1], bytes):
+                out[-1] += bytes(part)
+            elif part:
+                out.append(bytes(part))
+        else:
+            out.append((str(part[0]), part[1]) if isinstance(part, tuple) and len(part) == 2 else repr(part))
+    return out
+
+
 def check_module(m, ptr_bits, calls, stats=None, image=True):
     """The round trip of one module.  Returns (failure message | None, number of defined calls compared)."""
     from ppci import ir, irutils
@@ -110,9 +126,9 @@ def check_module(m, ptr_bits, calls, stats=None, image=True):
     if not image:
         # fuzzed texts (thorough tier) may declare globals of any size: compare the declarations, build no memory
         for v1, v2 in zip(m.variables, m2.variables):
-            if (v1.amount, v1.alignment, v1.value) != (v2.amount, v2.alignment, v2.value):
-                return "global %s differs after the round trip: (amount, alignment, value) original %r, re-read %r" % (
-                    v1.name, (v1.amount, v1.alignment, v1.value), (v2.amount, v2.alignment, v2.value)), 0  # fmt: skip
+            d1, d2 = (v1.amount, v1.alignment, _flat_value(v1.value)), (v2.amount, v2.alignment, _flat_value(v2.value))
+            if d1 != d2:
+                return "global %s differs after the round trip: (amount, alignment, contents) original %r, re-read %r" % (v1.name, d1, d2), 0
     try:
         if not image:
             raise irsem.Unsupported("initial image not built for fuzzed text")
